@@ -82,20 +82,22 @@ class NormFourierDomainExpression(NormFourierDomain, Expr):
         """Convert to angular Fourier domain."""
         from .symbols import omega
 
-        result = self.subs(omega / dt)
+        # F = f * dt = omega * dt / (2 * pi)
+        result = self.subs(omega * dt / (2 * pi))
         return result
 
     def norm_fourier(self, **assumptions):
         """Convert to normalized Fourier domain."""
-        from .symbols import F
 
-        result = self.subs(F / dt)
-        return result
+        return self
 
     def norm_angular_fourier(self, **assumptions):
         """Convert to normalized angular Fourier domain."""
+        from .symbols import Omega
 
-        return self
+        # F = Omega / (2 * pi)
+        result = self.subs(Omega / (2 * pi))
+        return result
 
     def laplace(self, **assumptions):
         """Determine one-side Laplace transform with 0- as the lower limit."""
